@@ -18,6 +18,7 @@ import (
 	"verifmc/explore"
 	"verifmc/refmodel"
 	"verifmc/streams"
+	"verifshim/vsync"
 )
 
 // ---- E1: send side ---------------------------------------------------------------
@@ -542,6 +543,90 @@ func main() {
 							}
 							return nil
 						})
+					}
+				}
+			}
+			t.Outcome("ok")
+		})
+
+		// A writer borrowed with GetWriter by a connection with permessage-deflate (SetExtensions
+		// with a message state that says "compressed"), used and handed back with PutWriter; the
+		// next borrower - a connection without the extension, or one with a state of its own - gets
+		// frames that carry RSV1 exactly as its own configuration says. The pools recycle (LIFO).
+		r.Part("E1d-borrowed-writer-after-a-compressing-borrower", func(t *explore.T) {
+			for _, client := range []bool{false, true} {
+				for _, n := range []int{128, 256, 4096} {
+					for _, how := range []string{"GetWriter", "application-writer-whose-Size-is-a-pool-class"} {
+						for _, firstLen := range []int{0, 5, 3 * n} {
+							for _, second := range []string{"no-extensions", "own-state-plain", "own-state-compressed"} {
+								for _, n2 := range []int{n, 128, 4096} {
+									client, n, how, firstLen, second, n2 := client, n, how, firstLen, second, n2
+									t.Do(func() string {
+										return fmt.Sprintf("client=%v: %s(%d) with a compressing message state sends %d bytes, Flush, PutWriter; then GetWriter(%d) %s sends a message", client, how, n, firstLen, n2, second)
+									}, func() *explore.Fail {
+										vsync.SetMode(vsync.LIFO)
+										vsync.ResetAll()
+										defer vsync.SetMode(vsync.FreshPoison)
+										st := ws.StateServerSide
+										if client {
+											st = ws.StateClientSide
+										}
+										d1 := env.NewDst()
+										var w1 *wsutil.Writer
+										if how == "GetWriter" {
+											w1 = wsutil.GetWriter(d1, st|ws.StateExtended, ws.OpText, n)
+										} else {
+											// an application buffer sized so that Size() == n, a pool class
+											for total := n + 1; total <= n+16; total++ {
+												w1 = wsutil.NewWriterBufferSize(d1, st|ws.StateExtended, ws.OpText, total)
+												if w1.Size() == n {
+													break
+												}
+											}
+											if w1.Size() != n {
+												return explore.Failf("harness-no-buffer-size-with-Size-equal-to-the-class", "n=%d", n)
+											}
+										}
+										var ms1 wsflate.MessageState
+										ms1.SetCompressed(true)
+										w1.SetExtensions(&ms1)
+										w1.Write(bytes.Repeat([]byte{'a'}, firstLen))
+										w1.Flush()
+										wsutil.PutWriter(w1)
+										d2 := env.NewDst()
+										w2 := wsutil.GetWriter(d2, st, ws.OpText, n2)
+										var ms2 wsflate.MessageState
+										wantFirst := byte(0)
+										switch second {
+										case "own-state-plain":
+											w2.SetExtensions(&ms2)
+										case "own-state-compressed":
+											ms2.SetCompressed(true)
+											w2.SetExtensions(&ms2)
+											wantFirst = 4
+										}
+										w2.Write(bytes.Repeat([]byte{'b'}, 2*n2+3))
+										if err := w2.Flush(); err != nil {
+											return explore.Failf("borrowed-writer-flush-fails", "%v", err)
+										}
+										frames, rest := drivers.ParseFrames(d2.Bytes())
+										if len(rest) != 0 || len(frames) < 2 {
+											return explore.Failf("borrowed-writer-frames", "%d frames, %d stray bytes", len(frames), len(rest))
+										}
+										for i, f := range frames {
+											want := byte(0)
+											if i == 0 {
+												want = wantFirst
+											}
+											if f.H.Rsv != want {
+												return explore.Failf("RSV-wrong-on-a-borrowed-writer-after-a-compressing-borrower", "frame %d of the second borrower's message has rsv=%d want %d (same writer object: %v)", i, f.H.Rsv, want, w1 == w2)
+											}
+										}
+										return nil
+									})
+								}
+							}
+						}
 					}
 				}
 			}
